@@ -125,13 +125,21 @@ def est_histogram(ex, ey, px, py, bins=None):
         yc = (ye[:-1] + ye[1:]) / 2
         if not (np.all(np.diff(xc) > 0) and np.all(np.diff(yc) > 0)):
             raise Undefined("bin centres not increasing (range below float resolution)")
+        for e in (xe, ye):
+            if float(np.min(np.diff(e))) < 1e-9 * float(np.max(np.abs(e))):
+                # the bin centres themselves are only known to a few ulps
+                raise Undefined("bin width near the float resolution of the axis values")
         if not np.all(np.isfinite(hist)):
             raise Undefined("histogram density not finite")
         spline = RectBivariateSpline(xc, yc, hist)
         dens = spline.ev(px, py)
     dens = np.array(dens, dtype=np.float64)
     dens[dens < 0] = 0
+    est_histogram.last_peak = float(hist.max())
     return dens
+
+
+est_histogram.last_peak = 0.0
 
 
 def est_gauss(ex, ey, px, py):
@@ -176,10 +184,23 @@ def est_multivariate(ex, ey, px, py, bw=None):
 ESTIMATORS = {"histogram": est_histogram, "gauss": est_gauss, "multivariate": est_multivariate}
 
 
+class Density(np.ndarray):
+    """ndarray carrying `floor`: the magnitude below which differences are rounding noise of
+    the estimator (spline oscillation around zero scales with the histogram maximum)."""
+    floor = 0.0
+
+
+def _with_floor(a, floor):
+    d = np.asarray(a, dtype=np.float64).view(Density)
+    d.floor = float(floor)
+    return d
+
+
 def estimate(kde_type, ex, ey, px, py, kwargs=None):
     kwargs = dict(kwargs or {})
     if kde_type == "histogram":
-        return est_histogram(ex, ey, px, py, bins=kwargs.get("bins"))
+        d = est_histogram(ex, ey, px, py, bins=kwargs.get("bins"))
+        return _with_floor(d, est_histogram.last_peak)
     if kde_type == "gauss":
         return est_gauss(ex, ey, px, py)
     if kde_type == "multivariate":
@@ -205,8 +226,9 @@ def ref_scatter(x_sel, y_sel, kde_type, xscale, yscale, positions=None, kwargs=N
         px, py = pxs[~pbad], pys[~pbad]
         shape = pxs.shape
     out = np.full(shape, np.nan, dtype=np.float64)
-    out[~pbad] = estimate(kde_type, ex, ey, px, py, kwargs)
-    return out
+    est = estimate(kde_type, ex, ey, px, py, kwargs)
+    out[~pbad] = est
+    return _with_floor(out, getattr(est, "floor", 0.0))
 
 
 def ref_contour(x_sel, y_sel, kde_type, xscale, yscale, xacc=None, yacc=None, kwargs=None,
@@ -250,7 +272,8 @@ def ref_contour(x_sel, y_sel, kde_type, xscale, yscale, xacc=None, yacc=None, kw
     if lin[0].size * lin[1].size > max_points:
         raise Undefined("grid too large for the reference budget")
     xm, ym = np.meshgrid(lin[0], lin[1], indexing="ij")
-    dens = estimate(kde_type, ex, ey, xm.ravel(), ym.ravel(), kwargs).reshape(xm.shape)
+    est = estimate(kde_type, ex, ey, xm.ravel(), ym.ravel(), kwargs)
+    dens = _with_floor(np.asarray(est).reshape(xm.shape), getattr(est, "floor", 0.0))
     if xscale == "log":
         xm = np.exp(xm)
     if yscale == "log":
@@ -262,6 +285,7 @@ def close_density(got, want, tol=TOL):
     """Same shape, same nan pattern, |got - want| <= tol * max(|want|, max|want|).
     -> None or a text."""
     got = np.asarray(got)
+    floor = float(getattr(want, "floor", 0.0))
     want = np.asarray(want)
     if got.shape != want.shape:
         return f"shape {got.shape}, reference has {want.shape}"
@@ -278,7 +302,7 @@ def close_density(got, want, tol=TOL):
     w, g = want[ok], got[ok]
     if not np.all(np.isfinite(w)):
         return None
-    peak = float(np.max(np.abs(w)))
+    peak = max(float(np.max(np.abs(w))), floor)
     with np.errstate(all="ignore"):
         err = np.abs(g - w)
         lim = tol * np.maximum(np.abs(w), peak)
@@ -326,13 +350,25 @@ def quantile_claim(density, x, y, xp, yp, q, level, normalize):
     n = xv.size
     if n == 0:
         raise Undefined("no valid event")
-    dp = interpn((gx, gy), density, np.column_stack([xv, yv]), method="linear",
+    # Events within rounding distance of the border of the grid are ambiguous: the grid spans
+    # min..max of the events, and on a log scale exp(log(v)) may move the border by an ulp, so
+    # such an event is "inside" (interpolated density) or "outside" (0) depending on the last
+    # bit.  Both readings are accepted: it counts as below the level only if both are.
+    tx = 1e-12 * float(np.max(np.abs(gx)))
+    ty = 1e-12 * float(np.max(np.abs(gy)))
+    amb = ((np.abs(xv - gx[0]) <= tx) | (np.abs(xv - gx[-1]) <= tx)
+           | (np.abs(yv - gy[0]) <= ty) | (np.abs(yv - gy[-1]) <= ty))
+    xc = np.where(amb, np.clip(xv, gx[0], gx[-1]), xv)
+    yc = np.where(amb, np.clip(yv, gy[0], gy[-1]), yv)
+    dp = interpn((gx, gy), density, np.column_stack([xc, yc]), method="linear",
                  bounds_error=False, fill_value=0)
+    dp_hi = np.where(amb, np.maximum(dp, 0.0), dp)
+    dp_lo = np.where(amb, np.minimum(dp, 0.0), dp)
     peak = float(density.max())
     if normalize:
         if not peak > 0:
             raise Undefined("normalisation by a zero maximum")
-        dp = dp / peak
+        dp_hi, dp_lo = dp_hi / peak, dp_lo / peak
         span = 1.0
     else:
         span = max(abs(peak), float(np.max(np.abs(density))))
@@ -340,10 +376,10 @@ def quantile_claim(density, x, y, xp, yp, q, level, normalize):
     level = float(level)
     if math.isnan(level):
         return "level is nan", {"n": n}
-    below = float(np.mean(dp < level - eps))
-    upto = float(np.mean(dp <= level + eps))
+    below = float(np.mean(dp_hi < level - eps))
+    upto = float(np.mean(dp_lo <= level + eps))
     info = {"n": n, "q": float(q), "level": level, "fraction_below": below,
-            "fraction_up_to": upto}
+            "fraction_up_to": upto, "events_on_the_grid_border": int(amb.sum())}
     if below > q + 1.0 / n + 1e-12:
         return (f"fraction {below:.6g} of the {n} events lies strictly below the level "
                 f"{level!r} reported for q={q:g} (more than q + 1/n)"), info
@@ -355,6 +391,17 @@ def quantile_claim(density, x, y, xp, yp, q, level, normalize):
 
 # ------------------------------------------------------------- executable defect models
 M_TWO_POSITIONS = "multivariate-two-positions-transposed"
+M_QUANTILE_AXIS_MAX_ZERO = "quantile-levels-axis-maximum-zero"
+
+
+def predict_quantile_axis_defect(x, y):
+    """Defect model: get_quantile_levels divides the grid axes and the events by the axis
+    maximum; a grid whose largest x (or y) value is exactly 0 is turned into nan/-inf and the
+    interpolation rejects it with ValueError.  -> exception type name or None"""
+    gx, gy = axis_1d(x, 0), axis_1d(y, 1)
+    if (gx.size and float(gx.max()) == 0.0) or (gy.size and float(gy.max()) == 0.0):
+        return "ValueError"
+    return None
 
 
 def predict_two_positions_defect(ex, ey, px, py, kwargs=None):
